@@ -414,8 +414,11 @@ def write_evidence(prop, tier, seed, level, coverage, wall, violations=0, assump
     os.makedirs(d, exist_ok=True)
     ev = {"property_id": prop, "tier": tier, "seed": int(seed), "level": level, "coverage": coverage,
           "assumptions": list(assumptions), "wall_s": round(wall, 2), "violations": int(violations)}
-    with open(os.path.join(d, prop + ".json"), "w") as fh:
-        json.dump(ev, fh, indent=1, sort_keys=True)
+    text = json.dumps(ev, indent=1, sort_keys=True, default=lambda o: sorted(o) if isinstance(o, (set, frozenset)) else str(o))
+    tmp = os.path.join(d, prop + ".json.tmp")
+    with open(tmp, "w") as fh:
+        fh.write(text)
+    os.replace(tmp, os.path.join(d, prop + ".json"))
     return ev
 
 
